@@ -3,6 +3,7 @@ From Coq Require Import List String.
 From VQ.Gen Require Import npinit_vq.
 Import ListNotations.
 Open Scope string_scope.
-Lemma pin_npinit_vq : npinit_vq =
+Definition pinned_npinit_vq : list string :=
   ["zero=torch.tensor(0.0)"].
+Lemma pin_npinit_vq : npinit_vq = pinned_npinit_vq.
 Proof. reflexivity. Qed.
